@@ -390,6 +390,11 @@ var c14LitOps = []c14LitOp{
 	{"true", c14Exp{"bool", "true"}, "bool"}, {"false", c14Exp{"bool", "false"}, "bool"}, {"!true", c14Exp{"bool", "false"}, "bool"},
 	{"true && false", c14Exp{"bool", "false"}, "bool"}, {"1 == 2", c14Exp{"bool", "false"}, "bool"}, {`"a" < "b"`, c14Exp{"bool", "true"}, "bool"},
 	{"nil", c14Exp{Kind: "nil"}, "nilable"},
+	// every spelling of an integer literal, an escaped rune, escapes in strings
+	{"0644", c14Exp{"int", "420"}, "int"}, {"010", c14Exp{"int", "8"}, "int"}, {"0o17", c14Exp{"int", "15"}, "int"}, {"0x1F", c14Exp{"int", "31"}, "int"},
+	{"0b101", c14Exp{"int", "5"}, "int"}, {"1_000", c14Exp{"int", "1000"}, "int"}, {"07", c14Exp{"int", "7"}, "int"}, {"'\\n'", c14Exp{"int", "10"}, "int"},
+	{"-010", c14Exp{"int", "-8"}, "int"}, {"1e3", c14Exp{"float", "1000.0"}, "float"}, {"0x1p4", c14Exp{"float", "16.0"}, "float"},
+	{`"a\tb"`, c14Exp{"string", "a\tb"}, "string"}, {`"\u00e9"`, c14Exp{"string", "é"}, "string"},
 }
 
 func (g *c14Gen) litFunc(name string) c14Func {
